@@ -138,6 +138,81 @@ def coq_build(jobs=16, timeout=3000):
         return rc == 0, out
 
 
+def coq_cone(pid):
+    """source files (relative to coq/) in the dependency cone of Properties/<pid>.v, itself included"""
+    dfile = os.path.join(COQ, ".Makefile.coq.d")
+    deps = {}
+    if os.path.exists(dfile):
+        for l in open(dfile):
+            if ":" not in l:
+                continue
+            lhs, rhs = l.split(":", 1)
+            tgt = [t for t in lhs.split() if t.endswith(".vo")]
+            if tgt:
+                deps[tgt[0]] = [d for d in rhs.split() if d.endswith(".vo") and not d.startswith("/")]
+    root = "Properties/%s.vo" % pid
+    seen, todo = set([root]), list(deps.get(root, []))
+    while todo:
+        x = todo.pop()
+        if x not in seen:
+            seen.add(x)
+            todo += deps.get(x, [])
+    return sorted(vo[:-1] for vo in seen)
+
+
+def strip_coq_comments(text):
+    """remove (nested) comments and string literals"""
+    out, depth, i, n, instr = [], 0, 0, len(text), False
+    while i < n:
+        c = text[i]
+        if instr:
+            if c == '"':
+                instr = False
+            i += 1
+            continue
+        if text.startswith("(*", i):
+            depth += 1
+            i += 2
+            continue
+        if depth and text.startswith("*)", i):
+            depth -= 1
+            i += 2
+            continue
+        if depth:
+            i += 1
+            continue
+        if c == '"':
+            instr = True
+            i += 1
+            continue
+        out.append(c)
+        i += 1
+    return "".join(out)
+
+
+FORBIDDEN = re.compile(r"\b(Admitted|admit|give_up|Axiom|Axioms|Parameter|Parameters|Conjecture|Conjectures|native_compute|bypass_check)\b"
+                       r"|Admit\s+Obligations|Unset\s+Guard\s+Checking|Unset\s+Positivity\s+Checking|Unset\s+Universe\s+Checking"
+                       r"|Local\s+Unset\s+Guard|type-in-type|impredicative-set")
+
+
+def forbidden_scan(files):
+    """constructs that declare an axiom or switch a kernel check off, outside comments and strings"""
+    hits = []
+    for f in files:
+        path = f if os.path.isabs(f) else os.path.join(COQ, f)
+        if not os.path.exists(path):
+            continue
+        body = strip_coq_comments(open(path).read())
+        for m in FORBIDDEN.finditer(body):
+            hits.append("%s:%s" % (os.path.basename(path), m.group(0).split()[0]))
+    for extra in ("_CoqProject",):
+        pth = os.path.join(COQ, extra)
+        if os.path.exists(pth):
+            for m in re.finditer(r"type-in-type|impredicative-set|-vos|-vok|native", open(pth).read()):
+                hits.append("%s:%s" % (extra, m.group(0)))
+    return hits
+
+
 def coq_cone_stale(pid):
     """Files in the dependency cone of Properties/<pid>.v whose .vo is missing or older than
     the source (so a failure elsewhere in the shared development does not count against pid)."""
